@@ -25,6 +25,7 @@ type kase struct {
 	Cond   bool   `json:"conditional_prefix,omitempty"`
 	C      bool   `json:"C,omitempty"`
 	D      bool   `json:"D,omitempty"`
+	Multi  *multi `json:"multi,omitempty"`
 }
 
 type target struct {
@@ -43,7 +44,7 @@ func init() {
 		ID:    "C14",
 		Level: "exploration",
 		Rule: fmt.Sprintf("templates <E A=Q prefix {{.}} Q> over %d URL-typed (element, attribute) targets x 2 quotings x static prefixes from a grammar (schemes, hosts, paths, queries, fragments, character references, percent escapes, whitespace/control characters raw and as references, partial references/escapes, scheme fragments) x hostile data; ", len(targets)) +
-			"the decoded attribute value is split into decoded prefix + f(datum) and f is judged per case of the property (query/fragment: fully percent-encoded; TrustedResourceURL prefix: same alphabet, same scheme/authority, no dot-dot segment with the datum; elsewhere: normalised, idempotent, scheme unchanged); an independent predicate says which prefixes must be rejected. " +
+			"the decoded attribute value is split into decoded prefix + f(datum) and f is judged per case of the property (query/fragment: fully percent-encoded; TrustedResourceURL prefix: same alphabet, same scheme/authority, no dot-dot segment with the datum; elsewhere: normalised, idempotent, scheme unchanged); an independent predicate says which prefixes must be rejected. Plus values made of several static pieces and data - helpers with static text of their own called at two sites (one value, two attributes), range bodies, recursive helpers, helpers without actions: the value is aligned with the author's rendering (text/template with marker data) and every datum is judged by the case that the text before it selects. " +
 			"non-trivial = accepted (prefix, datum) with a datum containing a reserved, dot, percent, quote, space or non-ASCII byte; distinct by case",
 		Assumptions: []string{"oracle: htmltok + DecodeAttrValue, refs.Scheme, refs.SafeTRUPrefix, refs.DotDotWithArg, RFC 3986 split; the three cases exactly as the property states them (ASCII controls only)"},
 		Run:         run,
@@ -56,6 +57,10 @@ func replay(c *core.Ctx, raw json.RawMessage) error {
 	var k kase
 	if err := json.Unmarshal(raw, &k); err != nil {
 		return err
+	}
+	if k.Multi != nil {
+		checkMulti(c, *k.Multi)
+		return nil
 	}
 	if k.Helper != "" {
 		checkHelper(c, k.Target, util.Unq(k.Helper), util.Unq(k.Prefix), util.Unq(k.Datum))
@@ -415,6 +420,14 @@ func checkHelper(c *core.Ctx, ti int, p1, p2, datum string) {
 }
 
 func run(c *core.Ctx) {
+	// values made of several static pieces and data (helpers with static text, range bodies,
+	// recursive helpers, two call sites of one helper)
+	rm := c.Rng("multi")
+	for i := 0; i < c.N(120000, 1500000)/c.NShards; i++ {
+		m := genMulti(rm, i)
+		c.Journal(util.JSON(kase{Multi: &m}))
+		checkMulti(c, m)
+	}
 	// one helper, two call sites
 	hp := []string{"/p/", "/search?q=", "/p#", "https://example.com/", "/a?x=1&amp;y=", "/x/.", "mailto:"}
 	hi := 0
